@@ -231,10 +231,13 @@ func validateNoOptOut(
 	flagList := make([]string, 0, optOutAttempts.Len())
 	for idx := range optOutAttempts.Iter() {
 		if int(idx) >= len(optionalMigrationFlags) {
-			// Bits beyond the current registry are unknown migrations from a newer
-			// Juno; let validateNoVersionDowngrade surface that. Iter yields in
-			// ascending order, so every remaining bit is also out of range.
-			break
+			// Bits beyond the current registry are migrations of a newer Juno that this
+			// binary does not know. validateNoVersionDowngrade only sees the ones already
+			// applied; one that was targeted but not finished may have left the database
+			// half-way, so it is refused as well.
+			return errors.New(
+				"database is from a newer, incompatible version of Juno; upgrade to use this database",
+			)
 		}
 		if flag := optionalMigrationFlags[idx]; flag != "" {
 			flagList = append(flagList, fmt.Sprintf("--%s", flag))
